@@ -178,6 +178,8 @@ fn level_modularities(g: &G, levels: &Levels, weighted: bool, res: Option<f64>, 
     // evaluated by the model on its own output; the expected verdicts are 1
     o.obs(74, &[vec![1]], &[]);
     o.obs(75, &[vec![1]], &[]);
+    // and: the model's generate_graph produced exactly the list-level aggregation of its edges
+    o.obs(76, &[vec![1]], &[]);
 }
 
 fn do_louv(g: &Arc<G>, t: &mut Toks, o: &mut Out) {
